@@ -38,7 +38,8 @@ def encTrace (t : Trace) : Json :=
   Json.mkObj [("obj", encObj t.obj),
     ("evs", Json.arr (t.evs.map fun e => Json.arr (e.map encEv).toArray).toArray),
     ("scheds", Json.arr (t.scheds.map encSched).toArray),
-    ("xis", Json.arr (t.xis.map fun x => Json.arr #[jn x.1, jn x.2]).toArray)]
+    ("xis", Json.arr (t.xis.map fun x => Json.arr #[jn x.1, jn x.2]).toArray),
+    ("cfgs", encNats t.cfgs)]
 
 def decNV3 (a b c : Json) : Except String NV := do
   return ⟨← a.getNat?, ← b.getNat?, ← c.getNat?⟩
@@ -56,6 +57,7 @@ def decAct (j : Json) : Except String Act := do
   | "setSeedV", [v] => return .setSeedV (← v.getNat?)
   | "readShelf", [] => return .readShelf
   | "readInt", [] => return .readInt
+  | "editCfg", [k] => return .editCfg (← k.getNat?)
   | t, _ => throw s!"bad op {t}"
 
 def decOps (j : Json) : Except String (List Act) := do
